@@ -129,9 +129,14 @@ package directive
 //@   ensures forall j string :: j != k ==> has(m.data, j) == old(has(m.data, j)) && (has(m.data, j) ==> m.data[j] == old(m.data[j]))
 
 // ---------------------------------------------------------------- parameters (C17, C01)
+// unesc(b): the meant value of a parameter spelled b (defined by unescapeParameter, whose own clauses are below)
+//@ specfn unesc(b []byte) []byte
+//@ func UnescapeParameter
+//@   inline
 //@ func unescapeParameter
 //@   tag C17 C01
 //@   modifies nothing
+//@   ghostensures same(ret, unesc(b))
 //@   ensures len(ret) <= len(b)
 //@   ensures [C17] !(len(b) >= 2 && b[0] == 34 && b[len(b)-1] == 34) ==> ret == b
 //@   ensures [C17] len(b) >= 2 && b[0] == 34 && b[len(b)-1] == 34 ==> len(ret) <= len(b) - 2
